@@ -267,6 +267,9 @@ func (e *Exec) objVal(st *State, obj types.Object, pos token.Pos) Val {
 			return v
 		}
 		// a captured variable of an enclosing function that we have no binding for
+		if v, ok := e.capturedVal(o); ok {
+			return v
+		}
 		e.fail(pos, "variable %s has no binding (captured from an unverified scope?)", o.Name())
 	case *types.Func:
 		return Val{T: IntLit(1), GT: o.Type(), Fn: &Closure{Obj: o, Name: o.FullName()}}
@@ -359,8 +362,10 @@ func (e *Exec) selector(st *State, x *ast.SelectorExpr) Val {
 func (e *Exec) fieldPath(st *State, base Val, path []int, pos token.Pos) Val {
 	cur := base
 	for _, idx := range path {
+		viaHeap := ""
 		if pt, ok := cur.GT.Underlying().(*types.Pointer); ok {
 			cur = e.deref(st, cur, pt, pos)
+			viaHeap = "*" + typeKey(pt.Elem())
 		}
 		stt, ok := cur.GT.Underlying().(*types.Struct)
 		if !ok {
@@ -376,6 +381,11 @@ func (e *Exec) fieldPath(st *State, base Val, path []int, pos token.Pos) Val {
 			cur = Val{T: App(fs, fn, cur.T), GT: f.Type()}
 		} else {
 			cur = Val{T: si.get(cur.T, idx), GT: f.Type(), Orig: cur.Orig}
+			// a slice stored in a heap cell shares its backing array with that cell: in-place writes
+			// through the value are writes to caller-visible state (checked by frame obligations)
+			if viaHeap != "" && isSlcSort(cur.T.Sort) && e.inContract == 0 {
+				cur.Orig = unionOrig(cur.Orig, map[string]bool{viaHeap + "." + f.Name(): true})
+			}
 		}
 		e.typeFactsGlobal(cur)
 	}
